@@ -50,7 +50,11 @@ func verif_C02_resume() {
 	case 3:
 		s.MaxMessageBytes = int64(msgLen + 1)
 	}
-	readMode := verifChoice(3) // 0 all, 1 two octets, 2 nothing
+	readMode := verifChoice(4) // 0 all, 1 two octets, 2 nothing, 3 exactly k octets (k arbitrary, one octet per Read)
+	kstop := 0
+	if readMode == 3 {
+		kstop = nondetInt(verifBound(msgLen-3, 1), msgLen)
+	}
 	retMode := verifChoice(3)  // 0 nil, 1 SMTPError, 2 plain error
 	consume := func(r io.Reader) error {
 		var rerr error
@@ -60,6 +64,11 @@ func verif_C02_resume() {
 		case 1:
 			buf := make([]byte, 2)
 			_, rerr = r.Read(buf)
+		case 3:
+			buf := make([]byte, 1)
+			for i := 0; i < kstop && rerr == nil; i++ {
+				_, rerr = r.Read(buf)
+			}
 		}
 		if rerr != nil && rerr != io.EOF {
 			return rerr
